@@ -20,6 +20,7 @@ EXPLANATION = (
     "CHANNEL_GRID and dense_layout; (D5) ADC group and delay are functions of the original channel number only "
     "(arange(NC) then [:nc]) with the documented (channels per ADC, cycles) table. Equality of the two metadata encodings, "
     "delay values on real probes and arbitrary IMRO selections are NOT decided."
+    ' (D5 as built) ADC group / delay are attached to the site table before any restriction or permutation of it (shank split, sort), since adc_shifts assigns by position; a closed-form delay ((c // 2) mod channels per ADC) / cycles is accepted next to the per-ADC loop.'
 )
 ASSUMPTIONS = [
     "numpy.lexsort sorts by the last key first (model table)",
